@@ -146,7 +146,7 @@ PROPS = {
         "lean": "Originium.Props.C10",
         "suites": ["key", "levels"],
         "skeleton_funcs": [],
-        "trusted_base": COMMON_TB + ["the bloom filter enters as an arbitrary predicate without false negatives (C16)"] + ["extract/gotrans.go (DESIGN section 14) regenerates GenLSM.searchLowerBound (levelManager.searchLowerBound) from /repo on every run; the bloom filter, Index.LowerBound and fetchAndSearchLowerBound are parameters instantiated with the table model; LSMTie.search_tie is part of this property's module; also GenTable.dataLowerIdx / indexLowerIdx (the binary searches Data.LowerBound and Index.LowerBound over Go ints) with TableTie"],
+        "trusted_base": COMMON_TB + ["the bloom filter enters as an arbitrary predicate without false negatives (C16)"] + ["extract/gotrans.go (DESIGN section 14) regenerates GenLSM.searchLowerBound (levelManager.searchLowerBound) from /repo on every run; the bloom filter, Index.LowerBound and fetchAndSearchLowerBound are parameters instantiated with the table model; LSMTie.search_tie is part of this property's module; also GenTable.dataLowerIdx / indexLowerIdx (the binary searches Data.LowerBound and Index.LowerBound over Go ints) with TableTie; GenTable.buildBlocks / buildIndex (the two loops of table.Build: block cutting; block encoding, index entries and data region) with TableTie.buildBlocks_eq / buildIndex_eq / ixFrom_cuts (Data.Encode is a function parameter, the byte buffer a list)"],
         "assumptions": ["tables hold strictly sorted entry lists (the flush of a skiplist, or a compaction output: C17, C09_sorted_nonempty)"],
         "explanation": "searchLowerBound translated from the Go source on every run and proved to be the model's search (C10_code_*); binary searches modelled literally (BS.loop) and proved equal to a linear scan; lookup over all tables proved to be the brute-force newest version",
     },
